@@ -1,12 +1,13 @@
-(** C14 -- the Matrix round trip, generalised (continues Proofs/MatrixIxP.v):
+(** C14 -- the Matrix round trip, generalised, UNBOUNDED version of Proofs/MatrixIxP2.v (continues
+    Proofs/MatrixIxU.v; calendar side conditions are lower bounds MINID <= id only):
     (B) cells may carry any non-empty subset of the requested fields, listed in the order of `fields`;
     (C) incremental triangles whose previous evaluation dates are the previous matrix columns.
     One predicate [cell_ok2 k ix inc] and one theorem [matrix_round_trip_perm2] cover both; the
     corollaries [matrix_round_trip_nested_sub] and [matrix_round_trip_incremental] discharge the
-    index side conditions from index_from_triangle as in MatrixIxP.matrix_round_trip_nested. *)
+    index side conditions from index_from_triangle as in MatrixIxU.matrix_round_trip_nested. *)
 From Coq Require Import ZArith List Bool Lia ZifyBool Permutation.
 From Bermuda Require Import Model.Base Lib.Calendar Model.Frame Model.MatrixIx.
-From Bermuda Require Import Proofs.FrameLib Proofs.MatrixIxP.
+From Bermuda Require Import Proofs.FrameLib Proofs.MatrixIxU.
 Import ListNotations.
 Local Open Scope Z_scope.
 
@@ -27,10 +28,8 @@ Proof.
   intros H [Hk|Hin]; [|exact (IH H Hin)].
   subst k'. rewrite (proj2 (mx_str_eqb_eq f f) eq_refl) in E. discriminate.
 Qed.
-Lemma addm_month_end' : forall i k, 0 <= i <= 1571 -> addm (month_end i) k = month_end (i + k).
-Proof.
-  intros i k Hi. unfold addm. rewrite (month_end_is_end i Hi), (month_id_end i Hi). reflexivity.
-Qed.
+Lemma addm_month_end' : forall i k, MINID <= i -> addm (month_end i) k = month_end (i + k).
+Proof. exact addm_month_end. Qed.
 
 (* ====================================================================================== *)
 (** * Cells on the grid of an index: any non-empty ordered subset of the fields; cumulative, or
@@ -39,7 +38,7 @@ Qed.
 Definition coords_ok (k : stepkind) (ix : mindex) (c : cell) (s lag : Z) : Prop :=
   ps c = month_start s /\ pe c = month_end (s + exp_res ix - 1) /\
   ev c = month_end (s + exp_res ix - 1 + lag) /\
-  0 <= s /\ 0 <= s + exp_res ix - 1 + lag <= 1571 /\ s + exp_res ix - 1 <= 1571 /\
+  MINID <= s /\ MINID <= s + exp_res ix - 1 + lag /\
   exp_origin ix <= s /\ (exp_res ix | s - exp_origin ix) /\
   dev_origin ix <= lag /\ (step_of k ix | lag - dev_origin ix).
 
@@ -80,10 +79,10 @@ Section MatrixCell2.
     0 <= p_of' c /\ 0 <= d_of' c /\
     s = exp_origin ix + p_of' c * exp_res ix /\ lag = dev_origin ix + d_of' c * step_of k ix.
   Proof.
-    intros c s lag (Hps & Hpe & Hev & Hs & Hr1 & Hr2 & Ho & De & Hl & Dl).
+    intros c s lag (Hps & Hpe & Hev & Hs & Hr1 & Ho & De & Hl & Dl).
     assert (Hlag : cell_lag c = lag).
     { unfold cell_lag. rewrite Hpe, Hev, lag_months_ends by lia. lia. }
-    destruct (unresolve_resolve_exp ix s Hres Ho ltac:(lia) De) as [p [Ep [Hp Up]]].
+    destruct (unresolve_resolve_exp ix s Hres Ho Hs De) as [p [Ep [Hp Up]]].
     destruct (unresolve_resolve_dev k ix lag Hstep Hl Dl) as [d [Ed [Hd Ud]]].
     unfold unresolve_dev in Ud.
     unfold p_of, d_of. rewrite Hlag, Hps, Ep, Ed.
@@ -214,7 +213,7 @@ Section MatrixCell2.
     rewrite (vals_of_cell2 c Hc).
     destruct (Hok c Hc) as (s & lag & Hco & Hkd & Hct).
     destruct (coords_ok_keys c s lag Hco) as (_ & _ & _ & _ & Hd0 & Us & Ul).
-    destruct Hco as (Hps & Hpe & Hev & Hs & Hr1 & Hr2 & _).
+    destruct Hco as (Hps & Hpe & Hev & Hs & Hr1 & _).
     destruct Hct as (_ & Hne & _ & Hfm & _).
     destruct (cvals c) as [|fv0 l0] eqn:Ecv; [congruence|].
     cbn [map]. unfold fl_cell. rewrite Ecv, Hfm, Hps, Hpe, Hev. cbn [map].
@@ -278,11 +277,11 @@ Proof.
   intros ix k c c1 s lag s1 lag1 Hres Hstep Hc Hc1 Hle.
   destruct (coords_ok_keys ix k Hres Hstep c s lag Hc) as (_ & _ & _ & _ & _ & Us & _).
   destruct (coords_ok_keys ix k Hres Hstep c1 s1 lag1 Hc1) as (_ & _ & _ & _ & _ & Us1 & _).
-  destruct Hc as (Hps & _ & _ & Hs & _ & Hr & _). destruct Hc1 as (Hps1 & _ & _ & Hs1 & _ & Hr1 & _).
+  destruct Hc as (Hps & _ & _ & Hs & _). destruct Hc1 as (Hps1 & _ & _ & Hs1 & _).
   rewrite Hps, Hps1 in Hle.
   assert (Hss : s <= s1).
   { destruct (Z_le_gt_dec s s1) as [H|H]; [exact H|]. exfalso.
-    pose proof (month_start_lt s1 s ltac:(lia) ltac:(lia) ltac:(lia)). lia. }
+    pose proof (month_start_lt s1 s ltac:(lia)). lia. }
   nia.
 Qed.
 Lemma d_of_mono2 : forall ix k c c1 s lag s1 lag1, 0 < exp_res ix -> 0 < step_of k ix ->
@@ -370,7 +369,7 @@ Qed.
 
 Definition grid_coords (L : Z) (c : cell) (s e : Z) : Prop :=
   ps c = month_start s /\ pe c = month_end (s + L - 1) /\ ev c = month_end e /\
-  0 <= s /\ 0 < L /\ s + L - 1 <= 1571 /\ 0 <= e <= 1571.
+  MINID <= s /\ 0 < L /\ MINID <= e.
 Definition grid_content (fields : list str) (c : cell) : Prop :=
   ordered_in fields (keys (cvals c)) = true /\ cvals c <> [] /\
   Forall (fun fv => exists x, snd fv = VNum x) (cvals c) /\ fl_meta (cmeta c) = cmeta c.
@@ -391,7 +390,7 @@ Lemma grid_coords_ok : forall t fields ix c s e,
   ((dev_res ix | exp_res ix) \/ (exp_res ix | dev_res ix)) ->
   In c t -> grid_coords (exp_res ix) c s e -> coords_ok SMin ix c s (e - (s + exp_res ix - 1)).
 Proof.
-  intros t fields ix c s e Hix Hn Hc (Hps & Hpe & Hev & Hs & HL & Hr & He).
+  intros t fields ix c s e Hix Hn Hc (Hps & Hpe & Hev & Hs & HL & He).
   destruct (index_from_triangle_grid t fields ix Hix) as (_ & _ & _ & Hg & _).
   destruct (Hg c Hc) as (Ho & De & _ & Hlo).
   pose proof (index_from_triangle_lag_grid t fields ix Hix HL Hn c Hc) as Dl.
@@ -431,7 +430,7 @@ Proof.
   { destruct (Hgc c0 ltac:(rewrite Et; left; reflexivity)) as (s & e & (_ & _ & _ & _ & HL & _) & _). exact HL. }
   apply (matrix_round_trip_perm2 msp SMin inc t fields ix); try assumption.
   - apply forallb_forall. intros c Hc.
-    destruct (Hgc c Hc) as (s & e & (Hps & Hpe & Hev & Hs & HL & Hr & He) & _).
+    destruct (Hgc c Hc) as (s & e & (Hps & Hpe & Hev & Hs & HL & He) & _).
     unfold month_aligned_cell. rewrite Hps, Hpe, Hev.
     rewrite month_start_is_start, !month_end_is_end by lia. reflexivity.
   - unfold step_of. lia.
@@ -488,7 +487,7 @@ Proof.
 Qed.
 Lemma grid_cell_is_sub : forall L fields c, fields <> [] -> grid_cell L fields c -> grid_cell_sub L fields c.
 Proof.
-  intros L fields c Hne (s & e & Hps & Hpe & Hev & Hs & HL & Hr & He & Hkd & Hpv & Hf & Hv & Hfm).
+  intros L fields c Hne (s & e & Hps & Hpe & Hev & Hs & HL & He & Hkd & Hpv & Hf & Hv & Hfm).
   exists s, e. unfold grid_coords, grid_content. repeat split; try assumption; try lia.
   - unfold keys. rewrite Hf. apply ordered_in_self.
   - intros E. apply Hne. rewrite <- Hf, E. reflexivity.
